@@ -66,6 +66,19 @@ func (e *Enc) callCommon(fr *Frame, st *State, cc *ssa.CallCommon, fnv *Val, arg
 			key := fmt.Sprintf("call:%s@%d", fr.curCallClass, r)
 			for i, cl := range fr.contract.CallAsserts[key] {
 				env := e.envFor(fr, st)
+				// the actual arguments of the call are visible as arg1 .. argN (and recv for an interface method call),
+				// unless the function has variables of these names
+				for ai, a := range args {
+					n := fmt.Sprintf("arg%d", ai+1)
+					if _, taken := env.vars[n]; !taken && a != nil && a.Loc == nil && a.Clos == nil {
+						env.vars[n] = a
+					}
+				}
+				if cc.IsInvoke() {
+					if _, taken := env.vars["recv"]; !taken {
+						env.vars["recv"] = e.val(fr, cc.Value)
+					}
+				}
 				g, err := env.evalBool(cl.E)
 				if err != nil {
 					e.unsupportedf("%s assert %s: %v", key, cl.Src, err)
@@ -94,7 +107,20 @@ func (e *Enc) callCommon(fr *Frame, st *State, cc *ssa.CallCommon, fnv *Val, arg
 					_, hasI := e.DB.Contracts[key]
 					if (hasC && cc0.callable()) || !hasI {
 						rv := e.unboxAs(st, recv.L[1].T, ct)
-						return e.callStatic(fr, st, fn, nil, append([]*Val{rv}, args...), rt, hint, pos)
+						res := e.callStatic(fr, st, fn, nil, append([]*Val{rv}, args...), rt, hint, pos)
+						// the interface method is `pure` as well: its value at this receiver is what the concrete method returned
+						// (links clauses written over the interface value, e.g. st.msg.Value(), with the concrete call made here)
+						if cI := e.DB.Contracts[key]; hasI && cI.Pure && rt != nil && res != nil && res.Loc == nil && res.Clos == nil {
+							iv := e.pureApp(cI, append([]*Val{recv}, args...), rt, st)
+							if len(iv.L) == len(res.L) {
+								for i := range iv.L {
+									if iv.L[i].S == res.L[i].S {
+										e.assume(st, eq(iv.L[i].T, res.L[i].T))
+									}
+								}
+							}
+						}
+						return res
 					}
 				}
 			}
